@@ -17,6 +17,7 @@ package main
 import (
 	"bufio"
 	"bytes"
+	"crypto/sha256"
 	"encoding/json"
 	"fmt"
 	"io"
@@ -93,17 +94,48 @@ var (
 
 func child() (string, error) {
 	childOnce.Do(func() {
-		dir := filepath.Dir(os.Args[0])
+		// the child is keyed by the content of THIS binary (which contains the service code of the tree under
+		// test and the harness): bin/check runs private copies of the harness from one shared directory
+		exe, err := os.Executable()
+		if err != nil {
+			exe = os.Args[0]
+		}
+		b, err := os.ReadFile(exe)
+		if err != nil {
+			childErr = err
+			return
+		}
+		sum := sha256.Sum256(b)
+		name := fmt.Sprintf("child-C13-%x", sum[:8])
+		dir := filepath.Dir(exe)
 		if abs, err := filepath.Abs(dir); err == nil {
 			dir = abs
 		}
-		bin := filepath.Join(dir, "child-C13")
+		if old, _ := filepath.Glob(filepath.Join(dir, "child-C13-*")); len(old) > 0 {
+			for _, o := range old {
+				if st, err := os.Stat(o); err == nil && time.Since(st.ModTime()) > 6*time.Hour && !strings.Contains(o, name) {
+					os.RemoveAll(o)
+				}
+			}
+		}
+		bin := filepath.Join(dir, name)
 		if _, err := os.Stat(bin); err == nil {
 			childBin = bin
 			return
 		}
-		b, sites, err := BuildChild("C13", dir, "child-C13", false)
-		childBin, childErr, nsites = b, err, len(sites)
+		tmp := fmt.Sprintf("%s.%d", name, os.Getpid())
+		bb, sites, err := BuildChild("C13", dir, tmp, false)
+		nsites = len(sites)
+		os.RemoveAll(filepath.Join(dir, "overlay-"+tmp))
+		if err != nil {
+			childErr = err
+			return
+		}
+		if err := os.Rename(bb, bin); err != nil {
+			childErr = err
+			return
+		}
+		childBin = bin
 	})
 	return childBin, childErr
 }
@@ -226,7 +258,7 @@ func c13(c *Ctx) {
 	}
 	c.Extra["delay_sites"] = nsites
 	kinds := []string{"close-idle", "close-early", "close-queued", "close-queued", "close-outstanding", "rst-outstanding",
-		"close-afterresp", "close-timer", "close-timer", "notmo", "mixed"}
+		"close-afterresp", "close-timer", "close-timer", "notmo", "mixed", "burst"}
 	cfgs := []delayCfg{{int(c.Seed), 0, 30}, {int(c.Seed) + 1, 200, 30}, {int(c.Seed) + 2, 1000, 15}, {int(c.Seed) + 3, 3000, 5}}
 	per := 3
 	if !c.Quick() {
